@@ -214,3 +214,4 @@ def check(ctx):
             ctx.must_follow(RUNF, None, ao("take", W), "timer-thread/pending-removal-self-wakes", "a pending removal seen by the re-check makes the timer thread take its own wake-up handle (it will not sleep)",
                             rule="R-SLOT", edge=nonempty, edge_label="edge `remove_list.is_empty()` is false",
                             exits=lambda g: set(g.ret_points()) | ctx.an.sites(g, Call(r"std::thread::park(_timeout)?", transitive=False), "must"))
+    shared.sleep_relative_to_fresh_clock(ctx)
